@@ -78,7 +78,8 @@ def checkOwnParagraphs (op : String) (args : List String) (text : List Int) (od 
   if qs.length < ps.length then "fail:C11 a paragraph separator was lost"
   -- no unique decomposition into pieces / lines: a self-overlapping or blank line separator
   -- (`bordered`), separators that overlap one another, a result that spells further separators
-  else if op == "indent" ∨ qs.length != ps.length ∨ bordered od.lineSep ∨ !sepsIndependent od then "ok"
+  else if op == "indent" ∨ qs.length != ps.length ∨ bordered od.lineSep ∨ bordered od.paraSep ∨
+      !sepsIndependent od then "ok"
   else
     let hy := op == "wrap"
     let same := (ps.zip qs).all fun (p, q) =>
@@ -90,7 +91,11 @@ def checkOwnParagraphs (op : String) (args : List String) (text : List Int) (od 
       let w : Int := if hy then ((args.headD "").toInt?).getD 1000000 else 1000000
       let name := if op == "wrap" then "Wrap" else if op == "justify" then "Justify" else "Align"
       let c07 := checkNonWsPara name od text out hy w
-      if c07 == "ok" then "fail:C11 text moved across a paragraph separator"
+      if !wsStable ([0x20] ++ text ++ [0x20]) ∨
+          !wsStable ([0x20] ++ flatText (flatText text od.paraSep) od.lineSep ++ [0x20]) then
+        -- a mark that follows white space (also: the white space a separator ends with) joins it; known finding of C07
+        "skip:not-WsStable"
+      else if c07 == "ok" then "fail:C11 text moved across a paragraph separator"
       else if c07.startsWith "skip" ∨ (c07.splitOn "not-WsStable").length > 1 ∨
           (c07.splitOn "does not fit the width").length > 1 then "skip:cause-reported-by-C07"
       else "fail:C11 a paragraph is not treated on its own (its text is not kept in its piece of the result)"
